@@ -1865,6 +1865,16 @@ class Identifier(str):
     def __hash__(self) -> int:
         return super().__hash__()
 
+    def as_source(self) -> str:
+        """Return this identifier as it is written in a template.
+
+        An identifier parsed from a quoted string is quoted again, so that names
+        containing spaces or other non-word characters can be parsed back.
+        """
+        if is_token_type(self.token, TokenType.WORD):
+            return str(self)
+        return "'" + self.replace("\\", "\\\\").replace("'", "\\'") + "'"
+
 
 def parse_identifier(token: TokenT) -> Identifier:
     """Parse _token_ as an identifier."""
